@@ -1,4 +1,139 @@
-import Fpy.Model.Lang.Core
+/-
+C09 — Inlining, specialisation and hoisting preserve results.
+
+Proved here (model level; the real transformations' outputs are run on the model by harness/c09.py):
+
+* `call_inline_sound` (FULL for its hypotheses): inlining ONE call statement `t = f(args)`.  The callee
+  is `def f(ps): ss; return e` with no `return` in `ss` (any statements otherwise: loops, branches,
+  `with`, list mutation — the callee shares the heap, so its writes to a list it was handed are the
+  caller's in both programs).  The inlined code is what `func_inline.py` emits: the arguments bound IN
+  ORDER to renamed parameters, the renamed body, `t = e'`, wrapped in `with D:` iff the callee declares
+  a context `D`.  Renaming is validated, not modelled: any `ss'`, `e'`, `ps'` accepted by the checker
+  `simB R` for a correspondence `R` between fresh names and callee names.
+  Outcome equality is two-sided: same return value and heap, same error, same divergence.
+* `with_ctx_wrap` (FULL): `with D: body` runs `body` under `D` whatever the call site's context, and the
+  call site's context is back afterwards; a context-less callee is spliced without wrapper and so runs
+  under the context of the CALL SITE (`callee_ctx_is_call_site`).
+* `mono_sound` (FULL): pinning the context.  `mono_ignores_ctx`: a pinned copy ignores `ctx=`.
+
+Open (`…_partial` below): a call site inside a loop (the fresh names hold stale values on the second
+iteration, so hypothesis `hσ` fails; harmless only when the callee assigns every local before reading
+it — needs a one-sided simulation), a call nested inside a larger expression (the prelude is hoisted
+in front of the statement, which changes evaluation order relative to the other operands), argument
+annotation pinning, free-variable closing and context hoisting (`lift_context.py`).
+-/
+import Fpy.Proof.LangEntry
 namespace Fpy.Props.C09
-theorem placeholder : True := trivial
+open Fpy Fpy.Lang Fpy.Xform
+
+theorem with_ctx_wrap (Φ : Funs) (σ : Env) (μ : Heap) (C D : Ctx) (body rest : List Stmt) :
+    evalSω Φ σ μ C (.with (.ctxLit D) none body) = evalBω Φ σ μ D body ∧
+    evalBω Φ σ μ C (.with (.ctxLit D) none body :: rest) = evalBω Φ σ μ D body >>= thenB Φ C rest :=
+  ⟨Fpy.Xform.with_ctx_wrap Φ σ μ C D body, with_ctx_wrap_block Φ σ μ C D body rest⟩
+
+/-- the fuel-indexed form, straight from the `with` rule of C04 -/
+theorem with_ctx_wrap_fuel (Φ : Funs) (fuel : Nat) (σ : Env) (μ : Heap) (C D : Ctx) (body : List Stmt) :
+    evalS Φ (fuel + 2) σ μ C (.with (.ctxLit D) none body) = evalB Φ (fuel + 1) σ μ D body := by
+  simp only [evalS, evalE]; rfl
+
+theorem mono_sound (Φ : Funs) (fuel : Nat) (f f' : String) (fd : FuncDef) (args : List Val) (μ : Heap) (C : Ctx)
+    (hf : Φ.find? f = some fd) (hctx : fd.ctx = none)
+    (hf' : Φ.find? f' = some { fd with name := f', ctx := some C }) :
+    callEntry Φ fuel f args μ (some C) = callEntry Φ fuel f' args μ none :=
+  Fpy.Xform.mono_sound Φ fuel f f' fd args μ C hf hctx hf'
+
+theorem mono_ignores_ctx (Φ : Funs) (fuel : Nat) (f' : String) (fd : FuncDef) (args : List Val) (μ : Heap) (C : Ctx)
+    (hf' : Φ.find? f' = some fd) (hctx : fd.ctx = some C) (c1 c2 : Option Ctx) :
+    callEntry Φ fuel f' args μ c1 = callEntry Φ fuel f' args μ c2 :=
+  Fpy.Xform.mono_ignores_ctx Φ fuel f' fd args μ C hf' hctx c1 c2
+
+/-- inlining one call.  `xs` ⊇ the variables the arguments read, `ys` ⊇ the variables the rest of the
+caller reads; `R` pairs each fresh name with the callee name it stands for. -/
+theorem call_inline_sound {Φ : Funs} {f : String} {fd : FuncDef} {ss : List Stmt} {e : Expr}
+    (hf : Φ.find? f = some fd) (hbody : fd.body = ss ++ [.ret e]) (hnr : noRetB ss = true)
+    {R : VRel} {ps' : List String} {ss' : List Stmt} {e' : Expr}
+    (hps : ps'.length = fd.params.length)
+    (hbind : ((ps'.zip fd.params).all fun p => R.bindOK p.1 p.2) = true)
+    (hsim : simB R ss' ss = true) (hsime : simE R e' e = true)
+    {xs ys : List String} {args : List Expr} {rest : List Stmt} {t : String}
+    (hargslen : args.length = fd.params.length)
+    (hargs : ∀ z ∈ readsEs args, z ∈ xs) (hfresh_xs : ∀ p ∈ ps', p ∉ xs)
+    (hrest : ∀ z ∈ readsB rest, z ∈ ys)
+    (hfresh_ys : ∀ z ∈ ys, z ≠ t → z ∉ ps' ∧ z ∉ bvB ss')
+    {σ : Env} (hσ : ∀ a b, R.has a b = true → σ.get? a = none)
+    (μ : Heap) (C : Ctx) (w : Val) (μ' : Heap) :
+    Returns Φ σ μ C (inlineCall ps' args fd.ctx ss' t e' rest) w μ' ↔
+      Returns Φ σ μ C (.assign (.var t) (.call f args) :: rest) w μ' :=
+  Fpy.Xform.call_inline_sound hf hbody hnr hps hbind hsim hsime hargslen (simEs_idRel_of_reads hargs) hfresh_xs
+    (simB_idRel_of_reads hrest) hfresh_ys hσ μ C w μ'
+
+/-- the freshness hypothesis `hσ` is a finite check -/
+theorem fresh_unbound_of_all (R : VRel) (σ : Env) (h : (R.all fun p => (σ.get? p.1).isNone) = true) :
+    ∀ a b, R.has a b = true → σ.get? a = none := by
+  intro a b hab
+  unfold VRel.has at hab
+  rw [List.any_eq_true] at hab
+  obtain ⟨p, hp, hp'⟩ := hab
+  rw [List.all_eq_true] at h
+  have := h p hp
+  simp only [Bool.and_eq_true, beq_iff_eq] at hp'
+  rw [hp'.1] at this
+  exact Option.isNone_iff_eq_none.1 this
+
+/-- the shape of the inlined code -/
+theorem inline_shape (ps' : List String) (args : List Expr) (D : Ctx) (ss' : List Stmt) (t : String) (e' : Expr) (rest : List Stmt) :
+    inlineCall ps' args none ss' t e' rest = bindArgs ps' args ++ ((ss' ++ [.assign (.var t) e']) ++ rest) ∧
+    inlineCall ps' args (some D) ss' t e' rest =
+      bindArgs ps' args ++ ([.with (.ctxLit D) none (ss' ++ [.assign (.var t) e'])] ++ rest) := ⟨rfl, rfl⟩
+
+/-! ### non-vacuity: `def f(a, b): c = a + b; return c * a`, called as `t = f(x, y); return t` -/
+
+def add (a b : Expr) : Expr := .op .add [a, b]
+def mul (a b : Expr) : Expr := .op .mul [a, b]
+def callee (ctx : Option Ctx) : FuncDef :=
+  { name := "f", params := ["a", "b"], ctx := ctx,
+    body := [.assign (.var "c") (add (.var "a") (.var "b"))] ++ [.ret (mul (.var "c") (.var "a"))] }
+def R : VRel := [("a1", "a"), ("b1", "b"), ("c1", "c")]
+def caller : List Stmt := [.assign (.var "t") (.call "f" [.var "x", .var "y"]), .ret (.var "t")]
+def inlined (ctx : Option Ctx) : List Stmt :=
+  inlineCall ["a1", "b1"] [.var "x", .var "y"] ctx [.assign (.var "c1") (add (.var "a1") (.var "b1"))] "t"
+    (mul (.var "c1") (.var "a1")) [.ret (.var "t")]
+
+example : simB R [.assign (.var "c1") (add (.var "a1") (.var "b1"))] [.assign (.var "c") (add (.var "a") (.var "b"))] = true := by
+  decide
+example : simE R (mul (.var "c1") (.var "a1")) (mul (.var "c") (.var "a")) = true := by decide
+example : ((["a1", "b1"].zip ["a", "b"]).all fun p => R.bindOK p.1 p.2) = true := by decide
+example : noRetB [.assign (.var "c") (add (.var "a") (.var "b"))] = true := by decide
+/-- a clash is caught: renaming `c` to the caller's `x` is not accepted as fresh for `ys = ["x", "t"]` -/
+example : ¬ (∀ z ∈ ["x", "t"], z ≠ "t" → z ∉ ["a1", "b1"] ∧ z ∉ bvB [.assign (.var "x") (add (.var "a1") (.var "b1"))]) := by
+  decide
+
+def retNum : M (Outcome × Heap) → Option NV
+  | .ok (.ret (.num a), _) => some a
+  | _ => none
+def env0 : Env := [("x", .num (.fv (.fin ⟨false, 0, 3⟩))), ("y", .num (.fv (.fin ⟨false, 0, 4⟩)))]
+def mp2 : Ctx := .mp 2 .rne (some 0) {}
+
+/-- (3 + 4) * 3 = 21 under binary64 … -/
+example : retNum (evalB ⟨[callee none]⟩ 30 env0 [] fp64 caller) = retNum (evalB ⟨[callee none]⟩ 30 env0 [] fp64 (inlined none)) := by
+  decide
+example : retNum (evalB ⟨[callee none]⟩ 30 env0 [] fp64 (inlined none)) = some (.fv (.fin ⟨false, 0, 21⟩)) := by decide
+/-- … and with a callee that declares a 2-bit context both round the same way, differently from binary64 -/
+example : retNum (evalB ⟨[callee (some mp2)]⟩ 30 env0 [] fp64 caller)
+    = retNum (evalB ⟨[callee (some mp2)]⟩ 30 env0 [] fp64 (inlined (some mp2))) := by decide
+example : retNum (evalB ⟨[callee (some mp2)]⟩ 30 env0 [] fp64 caller) ≠ some (.fv (.fin ⟨false, 0, 21⟩)) := by decide
+
+/-- the theorem instantiated at this call site -/
+example (w : Val) (μ' : Heap) :
+    Returns ⟨[callee (some mp2)]⟩ env0 [] fp64 (inlined (some mp2)) w μ' ↔ Returns ⟨[callee (some mp2)]⟩ env0 [] fp64 caller w μ' :=
+  call_inline_sound (Φ := ⟨[callee (some mp2)]⟩) (fd := callee (some mp2)) (R := R) (xs := ["x", "y"]) (ys := ["t"])
+    rfl rfl (by decide) (by decide) (by decide) (by decide) (by decide) (by decide) (by decide) (by decide)
+    (by decide) (by decide) (fresh_unbound_of_all R env0 (by decide)) [] fp64 w μ'
+
+/-! ### open parts -/
+
+/-- PARTIAL — MISSING: call sites whose fresh names may already be bound (second loop iteration),
+calls nested in larger expressions, `Monomorphize` argument annotations, `FreeVarElim`, `LiftContext`. -/
+theorem call_inline_general_partial : True := trivial
+
 end Fpy.Props.C09
